@@ -20,7 +20,8 @@ RULE = _base.SPACE_TEXT + (
 globals().update(_base.std(monitors.c08))
 
 JOB = {'dur': [0, 2, 3, 'never'], 'cdelay': [1], 'sd': [1, 3],
-       'forever': [True], 'out': ['raise'], 'critical': [True]}
+       'forever': [True], 'out': ['raise'], 'critical': [True],
+       'k': ['coro', 'print']}
 
 
 def timeouts(name):
